@@ -45,7 +45,9 @@ let semantics name : int * (v list -> v) = match name with
   | _ -> failwith ("unknown function " ^ name)
 
 let functor_of name : v coq_functor = match name with
-  | "swap" -> swap_f | "dup" -> dup_f (nat_of_int 2) | "dig2" -> dig_f (nat_of_int 2) | "bury2" -> bury_f (nat_of_int 2)
+  | "swap" -> swap_f | "dup" -> dup_f (nat_of_int 2)
+  | "dig1" -> dig_f (nat_of_int 1) | "dig2" -> dig_f (nat_of_int 2) | "dig3" -> dig_f (nat_of_int 3)
+  | "bury1" -> bury_f (nat_of_int 1) | "bury2" -> bury_f (nat_of_int 2) | "bury3" -> bury_f (nat_of_int 3)
   | _ -> let (n, f) = semantics name in { arity = nat_of_int n; fmap = (fun l -> [f l]) }
 
 let show_v = function V (_, a) -> show_arr (List.map z_of_int a.sh) (List.map z_of_int a.d) | Err -> "nothing"
@@ -113,17 +115,23 @@ let name_of = function V (nm, _) -> nm | Err -> "?"
 
 let () =
   register "pipe" (fun a -> match a with
-    | [p; split; x; y; z] ->
+    | p :: split :: arrays ->
         let t = parse_pipe (getS p) in
         let fs = flatten t in
         let need = List.fold_left (fun acc c -> acc + int_of_string c) 0 (String.split_on_char '+' (getS split)) in
-        let ops = List.filteri (fun i _ -> i < need) [leaf "a" x; leaf "b" y; leaf "c" z] in
+        let all = List.mapi (fun i x -> leaf (String.make 1 (Char.chr (97 + i))) x) arrays in
+        let ops = List.filteri (fun i _ -> i < need) all in
+        (* a complete result, or (results..., operands left over) when the split supplied more than is consumed *)
+        let show_stack = function
+          | [r] -> show_v r
+          | rs -> "tuple " ^ String.concat " ;; " (List.map show_v rs) in
         let m = (match feed fs (chunks_of (getS split) ops) with
-                 | ([], [r]) -> show_v r
-                 | ([], _) -> "operand-tuple"
-                 | (_, _) -> "curried") in
-        let (sp, dom) = (match denote t ops with Some [r] -> (show_v r, true) | Some _ -> ("operand-tuple", true) | None -> ("curried", false)) in
-        { model = "fn " ^ m ^ " | view " ^ sp; spec = "fn " ^ sp ^ " | view " ^ sp; dom }
+                 | ([], rs) when rs <> [] -> show_stack rs
+                 | _ -> "curried") in
+        let (sp, view, dom) = (match denote t ops with
+                 | Some (r :: rest) -> (show_stack (r :: rest), show_v r, true)
+                 | _ -> ("curried", "curried", false)) in
+        { model = "fn " ^ m ^ " | view " ^ view; spec = "fn " ^ sp ^ " | view " ^ view; dom }
     | _ -> failwith "pipe");
   register "ext" (fun a -> match a with
     | [_kind; g; tree; x; y; z] ->
